@@ -103,13 +103,13 @@ func expandVersionSpec(s string) []string {
 // scalarTemplates: the specification's layout tokens in the vocabulary of the provenance printer.
 // V is the converted Go value, S the source bytes.
 var scalarTemplates = map[string][2]string{
-	"i64":   {"be64(V)@8", "be64(S){len(S)==8}"},
-	"i32":   {"be32(V)@4", "be32(S){len(S)==4}"},
-	"i16":   {"be16(V)@2", "be16(S){len(S)==2}"},
-	"i8":    {"u8(V)", "S[0]{len(S)==1}"},
-	"bool8": {"u8(k:0) | u8(k:1)", "(S[0] != k:0){len(S)==1}"},
-	"f64":   {"be64(ieee(V))@8", "ieee⁻¹(be64(S)){len(S)==8}"},
-	"f32":   {"be32(ieee(V))@4", "ieee⁻¹(be32(S)){len(S)==4}"},
+	"i64":                                 {"be64(V)@8", "be64(S){len(S)==8}"},
+	"i32":                                 {"be32(V)@4", "be32(S){len(S)==4}"},
+	"i16":                                 {"be16(V)@2", "be16(S){len(S)==2}"},
+	"i8":                                  {"u8(V)", "S[0]{len(S)==1}"},
+	"bool8":                               {"u8(k:0) | u8(k:1)", "(S[0] != k:0){len(S)==1}"},
+	"f64":                                 {"be64(ieee(V))@8", "ieee⁻¹(be64(S)){len(S)==8}"},
+	"f32":                                 {"be32(ieee(V))@4", "ieee⁻¹(be32(S)){len(S)==4}"},
 	"u32(days+2^31)":                      {"be32(flip31(V))@4", "flip31(be32(S)){len(S)==4}"},
 	"i32(scale) varint(unscaled)":         {"be32(V.Scale)@4 varint(V.Unscaled)", "{Unscaled: varint⁻¹(S[4:]), Scale: be32(S)}{len(S)>4}"},
 	"vint(months) vint(days) vint(nanos)": {"vint(V.Months) vint(V.Days) vint(V.Nanos)", "{Months: vint@1(S), Days: vint@2(S), Nanos: vint@3(S)}"},
